@@ -34,6 +34,9 @@ fn replay_calls<T: Eq + std::hash::Hash + Clone>(spec: &Spec, lab: impl Fn(u32) 
             Call::Build => {
                 let _ = b.build();
             }
+            Call::BuildUnchecked => {
+                let _ = guard(|| b.build_unchecked());
+            }
         }
     }
     if twice {
